@@ -142,6 +142,17 @@ class APDCharacteristics:
         )
         self._numbytes = 0
 
+    def _set_original(
+        self,
+        avalanche_gain: float | None = None,
+        pixel_reset_voltage: float | None = None,
+        common_voltage: float | None = None,
+    ) -> None:
+        """Remember the two inputs from which the current state can be re-created."""
+        self._original_avalanche_gain = avalanche_gain
+        self._original_pixel_reset_voltage = pixel_reset_voltage
+        self._original_common_voltage = common_voltage
+
     def __eq__(self, other) -> bool:
         return (
             type(self) is type(other)
@@ -185,6 +196,9 @@ class APDCharacteristics:
         self._avalanche_gain = value
         self._avalanche_bias = self.gain_to_bias_saphira(value)
         self._common_voltage = self.pixel_reset_voltage - self.avalanche_bias
+        self._set_original(
+            avalanche_gain=value, pixel_reset_voltage=self._pixel_reset_voltage
+        )
 
     @property
     def pixel_reset_voltage(self) -> float:
@@ -197,6 +211,9 @@ class APDCharacteristics:
         self._avalanche_bias = value - self.common_voltage
         self._avalanche_gain = self.bias_to_gain_saphira(self.avalanche_bias)
         self._pixel_reset_voltage = value
+        self._set_original(
+            pixel_reset_voltage=value, common_voltage=self._common_voltage
+        )
 
     @property
     def common_voltage(self) -> float:
@@ -209,6 +226,9 @@ class APDCharacteristics:
         self._avalanche_bias = self.pixel_reset_voltage - value
         self._avalanche_gain = self.bias_to_gain_saphira(self.avalanche_bias)
         self._common_voltage = value
+        self._set_original(
+            pixel_reset_voltage=self._pixel_reset_voltage, common_voltage=value
+        )
 
     @property
     def avalanche_bias(self) -> float:
